@@ -83,9 +83,9 @@ def _memo(fn):
         except AttributeError:
             return fn(idx)
         if key in cache:
-            return cache[key]
+            return cache[key][1]
         v = fn(idx)
-        cache[key] = v
+        cache[key] = (idx, v)     # the index terms are kept alive: z3 recycles the ids of collected terms
         return v
     return g
 
@@ -176,6 +176,19 @@ def from_nested(data, dtype=None):
         return new_arr((), lambda idx: v, dtype or scalar_dtype(v))
     if isinstance(data, SeqVal):
         r = data.reader()
+        probe = r(0)
+        if isinstance(probe, Arr):
+            # sequence of equally shaped arrays (np.array(list of arrays)): stacked along a new leading axis
+            eshape = tuple(probe.shape)
+
+            def fn(idx, r=r, eshape=eshape):
+                e = r(idx[0])
+                if not isinstance(e, Arr) or len(e.shape) != len(eshape):
+                    raise EngineError("ragged sequence of arrays")
+                for x, y in zip(e.shape, eshape):
+                    require_dim_eq(x, y, "stack-shape")
+                return e.get(tuple(idx[1:]))
+            return new_arr((data.length,) + eshape, fn, dtype or probe.dtype)
         return new_arr((data.length,), lambda idx: r(idx[0]), dtype or "float")
     if isinstance(data, (list, tuple)):
         items = [from_nested(x) if not sv.is_scalar(x) else x for x in data]
@@ -250,6 +263,23 @@ class SeqVal:
 
     def reader(self):
         return self.fn
+
+
+def compact(vals, keeps):
+    """order-preserving sub-sequence of the scalars `vals` whose `keeps` entry (True or symbolic bool) holds:
+    length = number kept; element j = the value v_m with keep_m and |{l < m : keep_l}| == j"""
+    before = [0]
+    for k in keeps:
+        before.append(sv.add(before[-1], 1 if k is True else ite(k, 1, 0)))
+    length = simp(before[-1]) if isinstance(before[-1], SV) else before[-1]
+
+    def fn(j):
+        r = vals[-1]
+        for m in range(len(vals) - 2, -1, -1):
+            c = sv.and_(keeps[m] if keeps[m] is not True else True, sv.cmp("==", before[m], j))
+            r = ite(c, vals[m], r)
+        return r
+    return SeqVal(length, fn)
 
 
 # ----------------------------------------------------------------------------------------------
@@ -469,6 +499,31 @@ class Masked:
         return Sum(0, self.n, lambda t: ite(self.mask(t), 1, 0))
 
 
+class MaskRank:
+    """the position, inside a boolean-mask selection, of the selected element with underlying index t (what
+    enumerate() over the selection counts); only usable to index a selection made with the same mask"""
+    __slots__ = ("t", "n", "mask")
+
+    def __init__(self, t, n, mask):
+        self.t, self.n, self.mask = t, n, mask
+
+
+def masked_getitem(a, key):
+    """sel[rank] where rank is the enumerate() counter of a selection with the same mask: the underlying element"""
+    if not isinstance(key, MaskRank) or a.rest != ():
+        raise EngineError("indexing a masked selection")
+    require_dim_eq(a.n, key.n, "mask-length")
+    probe = sv.fresh_int("mk")
+    m1, m2 = norm(a.mask(probe)), norm(key.mask(probe))
+    same = (is_conc(m1) and is_conc(m2) and m1 == m2) or (isinstance(m1, SV) and isinstance(m2, SV) and z3.simplify(m1.t).eq(z3.simplify(m2.t)))
+    if not same:
+        raise EngineError("selection indexed by the position in a selection with a different mask")
+    return a.src((key.t,))
+
+
+SYMBOLIC_MINMAX = [None]     # hook: contract of min/max over a symbolic axis (registered by a library extension)
+
+
 def _norm_index(i, n, what="index-bounds"):
     """python/numpy integer index -> nonneg index, with the bounds side obligation"""
     i = norm(i)
@@ -532,6 +587,8 @@ def _expand_key(key, nd):
 
 def _masked_getitem(a, key):
     """m[:, None, ...]: the selected axis kept whole, new axes / full slices on the trailing dimensions"""
+    if isinstance(key, MaskRank) or (isinstance(key, tuple) and len(key) == 1 and isinstance(key[0], MaskRank)):
+        return masked_getitem(a, key if isinstance(key, MaskRank) else key[0])
     if not isinstance(key, tuple):
         key = (key,)
     if not key or not (isinstance(key[0], slice) and key[0] == slice(None)):
@@ -999,6 +1056,8 @@ def reduce_minmax(a, which, axis=None):
         raise EngineError("min/max with axis")
     shape = a.shape
     if not all(dim_conc(d) for d in shape):
+        if len(shape) == 1 and SYMBOLIC_MINMAX[0] is not None:
+            return SYMBOLIC_MINMAX[0](a, which)
         # ASSUMED relational contract of max/min over a symbolic axis (1-D): the result M is attained at a witness index
         # and bounds every element; the bound is a quantified fact (cur().qfacts) that contracts instantiate
         if len(shape) != 1:
